@@ -98,7 +98,7 @@ def check(tier):
                       "natural failures after at least one row edit": (sum(n for k, n in pos.items() if not k.endswith("@edit0") and not k.endswith("@edit1")), 5),
                       "index probes through an index": (ex.get("probes_via_index", 0), 200)}
             for what, (got, floor) in floors.items():
-                if got < floor:
+                if got < floor and not v.violations:      # (a reproduced disagreement is a verdict even in a thin run)
                     raise lib.Inconclusive("vacuous run: %s = %d < %d" % (what, got, floor))
             nw = wit.finish(v)
             # bounded models
